@@ -77,18 +77,46 @@ pub struct Ids {
     /// walk reads any content, so right after a SETATTR step these are the times that step left)
     pub times: HashMap<i64, (i64, i64, i64, i64)>,
     pub map: HashMap<(u64, u64), i64>,
+    /// no pinning: the host may hand the inode number of a removed file to a new one (wanted by the histories about
+    /// exactly that); files are then told apart by (dev, ino, generation), `map` holds the latest file of a number
+    pub nopin: bool,
+    gen: HashMap<(u64, u64, u64), i64>,
     pins: Vec<i32>,
     next: i64,
 }
 
 impl Ids {
     pub fn new() -> Self {
-        Ids { times: HashMap::new(), map: HashMap::new(), pins: Vec::new(), next: 1 }
+        Ids { times: HashMap::new(), map: HashMap::new(), nopin: false, gen: HashMap::new(), pins: Vec::new(), next: 1 }
     }
     pub fn get(&self, dev: u64, ino: u64) -> i64 {
         *self.map.get(&(dev, ino)).unwrap_or(&-1)
     }
     fn learn(&mut self, dev: u64, ino: u64, path: &Path) -> i64 {
+        if self.nopin {
+            // i_generation of regular files and directories (FS_IOC_GETVERSION); 0 for the rest
+            let c = cstr(path.as_os_str().as_bytes());
+            let mut g: libc::c_long = 0;
+            let fd = unsafe { libc::open(c.as_ptr(), libc::O_RDONLY | libc::O_NONBLOCK | libc::O_NOFOLLOW | libc::O_CLOEXEC) };
+            if fd >= 0 {
+                unsafe {
+                    libc::ioctl(fd, 0x8008_7601u64 as _, &mut g as *mut libc::c_long);
+                    libc::close(fd);
+                }
+            }
+            let key = (dev, ino, g as u64);
+            let id = match self.gen.get(&key) {
+                Some(v) => *v,
+                None => {
+                    let id = self.next;
+                    self.next += 1;
+                    self.gen.insert(key, id);
+                    id
+                }
+            };
+            self.map.insert((dev, ino), id);
+            return id;
+        }
         if let Some(v) = self.map.get(&(dev, ino)) {
             return *v;
         }
